@@ -269,3 +269,52 @@ def run(ctx, prog, res):
             r7.check(bool(year_variants) and not missing, {"fn": fid.split("::")[-1], "far_end": "Date::ymd(%s)" % ", ".join(shs), "decided_by": how, "year_looked_at_for": sorted(seen)}, "C05.R7:%s" % fid.split("::")[-1],
                      "%s chooses the far end `9999 Dec 31` of an open-ended date by a test that never looks at the year of %s: `2024 easter+` ends on the undated Dec 31 (every year) instead of running for ever" % (fid, ", ".join("Date::" + v for v in missing)), lib.where_of(fn, t))
     r7.floor(1)
+
+    # R8 -------------------------------------------------------------------------------------
+    r8 = res.rule("C05.R8", "an optional part that is absent takes its neutral default, not what a sibling parsed: in a dated range `(start, start offset) - (end, end offset)` the end's offset may only repeat the start's offset where the end itself repeats the start (the single date `Jan 5 +1 day`); an end parsed by its own rule (`-Dec 31`, `+`) has its own offset or none")
+    import terms as _terms
+    n8 = 0
+    for fid, fn in sorted(prog.fns.items()):
+        if not fid.startswith("opening_hours_syntax::parser::") or fn.from_expansion:
+            continue
+        for bb, b in fn.live_blocks():
+            for st in b["stmts"]:
+                if not (st["k"] == "assign" and st["rv"]["k"] == "agg" and st["rv"].get("ak") == "adt" and st["rv"].get("variant") == "Date" and str(st["rv"].get("adt", "")).endswith("MonthdayRange")):
+                    continue
+                ops = dict(zip(st["rv"]["fields"], st["rv"]["ops"]))
+                if set(ops) != {"start", "end"}:
+                    continue
+                parts = {}
+                for k, o in ops.items():
+                    sh = flow.shape(fn, o, depth=8)
+                    try:
+                        t = _terms.parse(sh)
+                    except _terms.TermError:
+                        t = None
+                    if t is None or t[0] != "app" or t[1] != "tuple" or len(t[2]) != 2:
+                        parts = None
+                        break
+                    # split the printed tuple at its top-level comma
+                    depth = 0
+                    inner = sh[len("tuple("):-1]
+                    cut = None
+                    for i, ch in enumerate(inner):
+                        if ch in "([{":
+                            depth += 1
+                        elif ch in ")]}":
+                            depth -= 1
+                        elif ch == "," and depth == 0:
+                            cut = i
+                            break
+                    parts[k] = (inner[:cut].strip(), inner[cut + 1:].strip())
+                n8 += 1
+                if parts is None:
+                    r8.fail("C05.R8:ANCHOR:%s" % fid.split("::")[-1], "ANCHOR: a MonthdayRange::Date is built from something else than two (date, offset) pairs in %s" % fid, lib.where_of(fn, st))
+                    continue
+                (sd, so), (ed, eo) = parts["start"], parts["end"]
+                same_date = ed == sd
+                parsed = "(" in so and so != "::default()"
+                inherits = parsed and so in eo
+                r8.check(same_date or not inherits, {"fn": fid.split("::")[-1], "end_is_the_start": same_date, "end_offset": eo[:120]}, "C05.R8:%s" % fid.split("::")[-1],
+                         "%s gives the end of a dated range the start's offset although the end is a date of its own (%s): `Dec 25 -2 days-Dec 31` ends on Dec 29" % (fid, ed[:120]), lib.where_of(fn, st))
+    r8.floor(2)
